@@ -70,3 +70,28 @@ def minimal_pre_classes():
             return enforce_pilot_limit(active_sessions, infrastructure)
 
     return MinimalPreSorted, MinimalPreRR
+
+
+def guaranteed_minimum_classes(minimum):
+    """Sorted / round-robin algorithms of a user who promises every connected car a minimum current of their own choosing (not
+    necessarily one of a station's levels): the documented run_preprocessing hook calls the parent and then raises each session's
+    minimum rate to that value, never above the session's maximum."""
+    import numpy as np
+    from acnportal.algorithms import SortedSchedulingAlgo, RoundRobin
+
+    def raise_minimum(algo, sessions):
+        for s_ in sessions:
+            need = float(algo.interface.remaining_amp_periods(s_))  # (never more than the car still needs in this period)
+            s_.min_rates = np.minimum(np.minimum(np.maximum(np.asarray(s_.min_rates, dtype=float), float(minimum)),
+                                                 np.asarray(s_.max_rates, dtype=float)), max(need, 0.0))
+        return sessions
+
+    class GuaranteedMinimumSorted(SortedSchedulingAlgo):
+        def run_preprocessing(self, active_sessions, infrastructure):
+            return raise_minimum(self, super().run_preprocessing(active_sessions, infrastructure))
+
+    class GuaranteedMinimumRR(RoundRobin):
+        def run_preprocessing(self, active_sessions, infrastructure):
+            return raise_minimum(self, super().run_preprocessing(active_sessions, infrastructure))
+
+    return GuaranteedMinimumSorted, GuaranteedMinimumRR
